@@ -676,8 +676,8 @@ func ExecStress(c CaseStress) *vkit.Result {
 
 var PartCtl = &vkit.Part[CaseCtl]{
 	Property: Property, Name: "controlled",
-	Rule: "rapid: {KeyLocker | KeyLockerGrp (mod/xxhash) | TKeyLocker | TKeyLockerGrp (mod/xxhash), int or string keys, shards 1/2/3/73, 2-6 keys spread over or colliding in shards} + 4-24 steps (Lock/RLock of one key, Locks/RLocks of a duplicate-free ascending sub-list, unlock by the actor); every call on its own goroutine, quiescence after every step. Oracle (fairness-agnostic): holders observed at quiescence satisfy exclusion on every key of every returned call; a parked call must have a conflicting holder or another waiter on one of its keys; parked calls need some holder; drain must complete everything; 0 entries when nothing is held. Non-trivial: some call had to wait; distinct = distinct case JSON",
-	Quick:    2500, Thorough: 15000,
+	Rule:  "rapid: {KeyLocker | KeyLockerGrp (mod/xxhash) | TKeyLocker | TKeyLockerGrp (mod/xxhash), int or string keys, shards 1/2/3/73, 2-6 keys spread over or colliding in shards} + 4-24 steps (Lock/RLock of one key, Locks/RLocks of a duplicate-free ascending sub-list, unlock by the actor); every call on its own goroutine, quiescence after every step. Oracle (fairness-agnostic): holders observed at quiescence satisfy exclusion on every key of every returned call; a parked call must have a conflicting holder or another waiter on one of its keys; parked calls need some holder; drain must complete everything; 0 entries when nothing is held. Non-trivial: some call had to wait; distinct = distinct case JSON",
+	Quick: 2500, Thorough: 15000,
 	Gen: GenCtl, Exec: ExecCtl,
 }
 
